@@ -10,6 +10,7 @@ import AeicProofs.Lemmas.C02Container
 import AeicProofs.Lemmas.C02Flight
 import AeicProofs.Lemmas.C02Interp
 import AeicProofs.Lemmas.KernelBridge2
+import AeicProofs.Lemmas.KernelBridge3
 
 namespace C02
 open Aeic Aeic.Builder Aeic.Container
@@ -446,5 +447,81 @@ theorem src_starting_mass_is_model (perf : PerfFn ℝ) (ac : Aircraft ℝ) (tota
     calcStartingMass perf ac total lf crz =
       .ok (Kern.legacy_starting_mass (massEnv ac total lf p), Kern.legacy_total_fuel_mass (massEnv ac total lf p)) :=
   legacy_starting_mass perf ac total lf crz p hp
+
+/-! ## Source tie: ONE generic iteration of the level-change loop and of the cruise loop, as regenerated from
+    `trajectories/builders/legacy.py` by the symbolic translator in loop mode (`Aeic.Kern.lvl_step_*`, `Aeic.Kern.crz_step_*`).
+    The first four theorems are statements about the source text alone — they hold for EVERY attribute environment `A` (every
+    running point, every performance answer, every heating value), with no reference to the model. -/
+
+/-- the same segment fuel is subtracted from the fuel mass and from the aircraft mass: one iteration of the level-change loop
+    of the source leaves `aircraft_mass − fuel_mass` unchanged, whatever the state and the performance -/
+theorem src_level_step_keeps_mass_minus_fuel (A : String → ℝ) (i s delta gs : ℝ) :
+    Kern.lvl_step_aircraft_mass A i s delta gs - Kern.lvl_step_fuel_mass A i s delta gs
+      = A "pt.aircraft_mass" - A "pt.fuel_mass" := by
+  simp only [Kern.lvl_step_aircraft_mass, Kern.lvl_step_fuel_mass]; ring
+
+/-- the non-negative clamp on the segment fuel: one iteration of the level-change loop of the source never increases fuel mass or
+    aircraft mass — for every state, every performance answer (decelerating segments included) -/
+theorem src_level_step_never_gains_fuel (A : String → ℝ) (i s delta gs : ℝ) :
+    0 ≤ Kern.lvl_step_seg_fuel A i s delta gs ∧
+    Kern.lvl_step_fuel_mass A i s delta gs ≤ A "pt.fuel_mass" ∧
+    Kern.lvl_step_aircraft_mass A i s delta gs ≤ A "pt.aircraft_mass" := by
+  simp only [Kern.lvl_step_seg_fuel, Kern.lvl_step_fuel_mass, Kern.lvl_step_aircraft_mass, lit_real]
+  refine ⟨?_, ?_, ?_⟩ <;> split_ifs with h <;> norm_num at h ⊢ <;> linarith
+
+/-- the cruise loop of the source subtracts the same segment fuel from both masses -/
+theorem src_cruise_step_keeps_mass_minus_fuel (A : String → ℝ) (step gs : ℝ) :
+    Kern.crz_step_aircraft_mass A step gs - Kern.crz_step_fuel_mass A step gs = A "pt.aircraft_mass" - A "pt.fuel_mass" := by
+  simp only [Kern.crz_step_aircraft_mass, Kern.crz_step_fuel_mass]; ring
+
+/-- with a non-negative fuel flow, a non-negative distance step and a positive ground speed, one cruise iteration of the source
+    never increases the masses and never decreases time and distance -/
+theorem src_cruise_step_monotone (A : String → ℝ) (step gs : ℝ) (hff : 0 ≤ A "perf.fuel_flow") (hs : 0 ≤ step) (hg : 0 < gs) :
+    Kern.crz_step_fuel_mass A step gs ≤ A "pt.fuel_mass" ∧ Kern.crz_step_aircraft_mass A step gs ≤ A "pt.aircraft_mass" ∧
+    A "pt.flight_time" ≤ Kern.crz_step_flight_time A step gs ∧ A "pt.ground_distance" ≤ Kern.crz_step_ground_distance A step gs := by
+  have hq : 0 ≤ step / gs := div_nonneg hs hg.le
+  have hm : 0 ≤ A "perf.fuel_flow" * (step / gs) := mul_nonneg hff hq
+  simp only [Kern.crz_step_fuel_mass, Kern.crz_step_aircraft_mass, Kern.crz_step_flight_time, Kern.crz_step_ground_distance]
+  refine ⟨?_, ?_, ?_, ?_⟩ <;> linarith
+
+/-- one level-change iteration advances time by `Δh / ROC` and distance by `ground speed · Δh / ROC`: non-decreasing whenever the
+    altitude step and the rate of climb have the same sign (climb: both positive; descent: both negative) -/
+theorem src_level_step_time_dist (A : String → ℝ) (i s delta gs : ℝ) (h : 0 ≤ delta / A "perf.rate_of_climb") (hg : 0 ≤ gs) :
+    A "pt.flight_time" ≤ Kern.lvl_step_flight_time A i s delta gs ∧
+    A "pt.ground_distance" ≤ Kern.lvl_step_ground_distance A i s delta gs := by
+  simp only [Kern.lvl_step_flight_time, Kern.lvl_step_ground_distance]
+  exact ⟨by linarith, by nlinarith [mul_nonneg hg h]⟩
+
+open KernelBridge3 in
+/-- … and the iteration of the source IS the step function of the model (`lvlNext`: fuel, mass, distance, time, ground speed
+    with the weather off), so the flight theorems above — proved about the folds `levelSteps` / `cruiseSteps` of exactly these
+    step functions — speak about the loops of the source text -/
+theorem src_level_step_is_model (pt : Pt ℝ) (alt : ℝ) (p pe : Perf ℝ) (g : Pos ℝ) (delta lhv i s0 : ℝ) :
+    Kern.lvl_step_fuel_mass (lvlEnv pt p pe lhv) i s0 delta (lvlFwd p) = (lvlNext pt alt p pe g delta lhv).fuel ∧
+    Kern.lvl_step_aircraft_mass (lvlEnv pt p pe lhv) i s0 delta (lvlFwd p) = (lvlNext pt alt p pe g delta lhv).mass ∧
+    Kern.lvl_step_ground_distance (lvlEnv pt p pe lhv) i s0 delta (lvlFwd p) = (lvlNext pt alt p pe g delta lhv).gd ∧
+    Kern.lvl_step_flight_time (lvlEnv pt p pe lhv) i s0 delta (lvlFwd p) = (lvlNext pt alt p pe g delta lhv).time ∧
+    Kern.lvl_step_seg_fuel (lvlEnv pt p pe lhv) i s0 delta (lvlFwd p) = lvlSegFuel pt p pe delta lhv ∧
+    Kern.lvl_step_ground_speed_still_air (lvlEnv pt p pe lhv) i s0 delta = (lvlNext pt alt p pe g delta lhv).gs :=
+  level_step pt alt p pe g delta lhv i s0
+
+open KernelBridge3 in
+theorem src_cruise_step_is_model (pt : Pt ℝ) (step : ℝ) (p : Perf ℝ) (g : Pos ℝ) :
+    Kern.crz_step_fuel_mass (crzEnv pt p) step pt.tas = (crzNext pt step p g).fuel ∧
+    Kern.crz_step_aircraft_mass (crzEnv pt p) step pt.tas = (crzNext pt step p g).mass ∧
+    Kern.crz_step_ground_distance (crzEnv pt p) step pt.tas = (crzNext pt step p g).gd ∧
+    Kern.crz_step_flight_time (crzEnv pt p) step pt.tas = (crzNext pt step p g).time ∧
+    Kern.crz_step_true_airspeed (crzEnv pt p) step pt.tas = (crzNext pt step p g).tas ∧
+    Kern.crz_step_ground_speed_still_air (crzEnv pt p) step = (crzNext pt step p g).gs :=
+  cruise_step pt step p g
+
+/-- the `i`-th level-change iteration of the source flies at `start + i·Δh` -/
+theorem src_level_step_altitude (A : String → ℝ) (i s delta gs : ℝ) :
+    Kern.lvl_step_altitude A i s delta gs = s + i * delta := KernelBridge3.level_altitude A i s delta gs
+
+/-- non-vacuity: a decelerating climb segment whose kinetic-energy credit exceeds the burn — the clamp is what keeps the fuel -/
+example : Kern.lvl_step_seg_fuel (KernelBridge3.lvlEnv ⟨1, 60000, 8000, 0, 1000, 0, 10, 0, 0, 0, 0, 0, 200, 200⟩ ⟨200, 10, 1⟩
+    ⟨100, 10, 1⟩ 43000000) 0 1000 100 199 = (0 : ℝ) := by
+  simp only [Kern.lvl_step_seg_fuel, KernelBridge3.lvlEnv, String.reduceEq, if_true, if_false, lit_real]; norm_num
 
 end C02
